@@ -6,3 +6,7 @@ CHECKS["C23"] = dict(
     level_note=E1_NOTE,
     parts=[dict(pkg=SCHK, run="^TestC23_KillDisablesExactlyThatProvider$", quick=150, thorough=15000, floor=5, timeout_quick=1500)],
 )
+
+# second part: kill_miner / kill_sharder through the miner contract (no slashing there)
+CHECKS["C23"]["parts"].append(dict(pkg="verifharness/checks/minerchk", run="^TestC23_KillMinerSharder$", quick=150, thorough=15000, floor=3))
+CHECKS["C23"]["level_text"] += " A second part sends kill_miner / kill_sharder from the contract owner, delegate wallets and strangers on registered miners and sharders: only the owner's call may succeed, it marks the node and its stake pool dead without changing a delegate balance (the miner contract does not slash), other nodes stay untouched, and later fee payments never raise a dead node's unpaid rewards."
